@@ -1667,6 +1667,26 @@ def g1_de_casteljau(ctx):
         required = set(mps) - G.defaulted_params(m) - {p.arg for p, d in zip(m.args.kwonlyargs, m.args.kw_defaults) if d is not None}
         rets = [st for st in au.stmts(m.body) if isinstance(st, ast.Return) and st.value is not None]
         used, modified, unknown = set(), [], []
+        # a memoised evaluation: the method returns instance state that it (or another method) rebinds
+        memo = [r for r in rets if au.is_self_attr(r.value) and r.value.attr != "pts"]
+        if memo:
+            attr = memo[0].value.attr
+            cls_ = repo.cls(BEZ, cname)
+            stores = [st for st in ast.walk(cls_) if isinstance(st, (ast.Assign, ast.AugAssign, ast.AnnAssign))
+                      and any(au.is_self_attr(t_, attr) for t_ in au.assign_targets(st))]
+            stores.sort(key=lambda st: 0 if any(a_ is m for a_ in au.ancestors(st)) else 1)       # the store of the method itself first
+            guards = [a_ for st in stores for a_ in au.ancestors(st) if isinstance(a_, ast.If)]
+            keyed_on_pts = any(au.is_self_attr(n_, "pts") or (isinstance(n_, ast.Name) and n_.id == "pts") for g_ in guards for n_ in ast.walk(g_.test))
+            s_ = ctx.site(BEZ, m, memo[0])
+            if stores and not keyed_on_pts:
+                ctx.fail("C19-G1", s_, f"{cname}.{mname} returns a memoised evaluation that is not tied to the control points",
+                         f"`return self.{attr}`: `self.{attr}` is kept from one call to the next (stored at line {stores[0].lineno}) and reused when "
+                         + (f"`{au.src(guards[0].test)[:80]}` fails" if guards else "it is already set")
+                         + ", whatever `self.pts` has become: after a control point is edited the method still answers with the old net - the "
+                         "result is no longer the Bernstein polynomial of the control points")
+            else:
+                ctx.undecided("C19-G1", s_, f"{cname}.{mname}: the returned evaluation is read from instance state", f"`self.{attr}`")
+            continue
         for r in rets:
             e = unpartial(fm.resolve(r.value, at=r, keep=tuple(mps)))
             for conds, leaf in F.alternatives(e):
